@@ -36,6 +36,13 @@ def quiet(fn, *a, **k):
     return r, out.getvalue(), err.getvalue()
 
 
+def safe(f):
+    try:
+        return f()
+    except Exception as e:  # pylint: disable=broad-except
+        return "exn:" + type(e).__name__
+
+
 def block_json(b):
     return {
         "idx": b.idx,
@@ -43,6 +50,11 @@ def block_json(b):
         "ins": [str(i) for i in b.instructions],
         "next": [x.idx for x in b.next],
         "prev": [x.idx for x in b.prev],
+        # call / return-point structure as the tool itself reports it (C05): read through the public properties
+        "is_rp": safe(lambda: bool(b.is_sub_return_point)),
+        "rp": safe(lambda: (b.sub_return_point.idx if b.sub_return_point is not None else None) if b.is_callsub_block else "-"),
+        "csb": safe(lambda: b.callsub_block.idx if b.is_sub_return_point else "-"),
+        "callee": safe(lambda: b.called_subroutine.name if b.is_callsub_block else "-"),
     }
 
 
